@@ -97,6 +97,7 @@ def stubs():
     S.append(Contract('OutputBuffer.is_section_empty', mode='contract', result='bool', ensures=[]))
     S.extend(output_stubs())
     S.extend(audit_stubs())
+    S.extend(policy_stubs())
     S.append(Contract('Algorithm.get_since_text', mode='contract', result='opt[str]', ensures=[],
                       note='which text is shown is C03; for the status only its level (info) matters'))
     return S
@@ -296,8 +297,39 @@ def setup_audit(ip, st, fr, case):
     return {}
 
 
+def setup_evaluate_policy(ip, st, fr, case):
+    fr['out'] = st.new_obj('OutputBuffer', {})
+    aconf = make_aconf(ip, st)
+    a = st.mut(aconf)
+    a.f['policy'] = st.new_obj('Policy', {})
+    a.f['json'] = case['$json']
+    a.f['client_audit'] = case['$client']
+    fr['aconf'] = aconf
+    fr['banner'] = None
+    fr['client_host'] = fresh('client_host', ('opt', 'str'))
+    fr['kex'] = None
+    fr['g_passed'] = fresh('passed', 'bool')
+    st.ghost['g_passed'] = fr['g_passed']
+    return {}
+
+
+def evaluate_result(ip, st):
+    return (st.ghost['g_passed'], symlist(st, 'errors'), fresh('error_str', 'str'))
+
+
+def policy_stubs():
+    return [Contract('Policy.evaluate', mode='contract', result=evaluate_result, ensures=[], note='C06 decides the verdict; here only its propagation'),
+            Contract('Policy.is_outdated_builtin_policy', mode='contract', result='bool', ensures=[]),
+            Contract('Policy.get_name_and_version', mode='contract', result='str', ensures=[]),
+            Contract('Utils.is_windows', mode='contract', result='bool', ensures=[])]
+
+
 def units():
     U = []
+    for js in (False, True):
+        for client in (False, True):
+            U.append(Unit(Contract('ssh_audit:evaluate_policy', setup=setup_evaluate_policy, cases=[{'$json': js, '$client': client}],
+                                   raises={}, ensures=["result == g_passed"]), harness=None))
     for mode in ('standard', 'policy'):
         for multi in (False, True):
             ens = ["implies(not ghost('parsed'), result == 1 and not any(ghost('reports')))",   # lists not obtained: status 1, no algorithm report
